@@ -8,6 +8,7 @@ pub mod c04;
 pub mod c05;
 pub mod c06;
 pub mod c06b;
+pub mod c12k;
 pub mod c12s;
 pub mod c17s;
 pub mod c19;
@@ -35,6 +36,7 @@ fn main() {
             "C05" => c05::replay(&ctx, &sub, &case),
             "C06" => c06::replay(&ctx, &sub, &case),
             "C19" => c19::replay(&ctx, &sub, &case),
+            "C12" if sub.starts_with("core_keygen") => c12k::replay(&ctx, &sub, &case),
             "C10" | "C11" | "C12" => c12s::replay(&ctx, &sub, &case),
             "C17" => c17s::replay(&ctx, &sub, &case),
             _ => {
@@ -89,7 +91,8 @@ fn main() {
         }
         "C12" => {
             c12s::run_all(&ctx);
-            ctx.finish(c12s::RULE, &["scheme-level part of C12/C11 (the HAL-level part is served by pzv-hal); keys are produced with roomy scratch, only the call under audit gets the exact window"], &[("dsize>2", 100), ("cross_radix", 500)])
+            c12k::run_all(&ctx);
+            ctx.finish(&format!("{} || {}", c12s::RULE, c12k::RULE), &["scheme-level part of C12/C11 (the HAL-level part is served by pzv-hal); keys are produced with roomy scratch, only the call under audit gets the exact window"], &[("dsize>2", 100), ("cross_radix", 500)])
         }
         "C19" => {
             c19::run_all(&ctx);
